@@ -59,6 +59,8 @@ def llm_fn_for(path):
 
 
 def explore_world(task):
+    if task[0] == "state-mode":
+        return explore_state_mode(task)
     if str(task[0]).startswith("2.x"):
         from vf.props import c01_v2
         return c01_v2.explore_world(task)
@@ -179,6 +181,86 @@ def explore_world(task):
     return res
 
 
+
+# ----------------------------------------------------------------------------- conversations continued through `state`
+OPTION_FORMS = {
+    # name: (options object for the call, input rails selected?)
+    "none": (lambda: None, True),
+    "empty-dict": (lambda: {}, True),
+    "default-object": (lambda: __import__("nemoguardrails.rails.llm.options", fromlist=["GenerationOptions"]).GenerationOptions(), True),
+    "log-only": (lambda: {"log": {"activated_rails": True}}, True),
+    "input-true": (lambda: {"rails": {"input": True}}, True),
+    "list-all": (lambda: {"rails": ["input", "dialog", "retrieval", "output"]}, True),
+    "input-false": (lambda: {"rails": {"input": False}}, False),
+    "list-without-input": (lambda: {"rails": ["dialog", "retrieval", "output"]}, False),
+}
+
+
+def explore_state_mode(task):
+    """Colang 1.0 conversations continued through the `state` object with per-turn generation options: whatever a turn
+    selected (e.g. input rails switched off for one call), the next turn is gated by the input rails unless it opts out itself."""
+    _tag, dialog, turns = task
+    res = {"worlds": 1, "turns": 0, "conversations": 0, "rejections": 0, "rewrites": 0, "llm_calls": 0, "rail_calls": 0, "viol": [],
+           "turns_after_an_opt_out": 0}
+    world = rw.v1_world(in_order=("in1",), out_order=(), dialog=dialog)
+    info0 = {"engine": "E3-world", "prop": "C01", "version": "1.0", "mode": "state-continued", "dialog": dialog}
+    nonce = [0]
+
+    def expand(state, t, hist, after_opt_out):
+        if t > turns:
+            res["conversations"] += 1
+            return
+        for form, (mk, selected) in OPTION_FORMS.items():
+            for in_v in ("A", "R"):
+                if not selected and in_v == "R":
+                    continue
+                nonce[0] += 1
+                user_text = f"U{t}x{nonce[0]}q hello"
+                turn = rw.run_turn(world, [{"role": "user", "content": user_text}], {"in1": in_v}, llm_fn_for("llm" if dialog else "general"), options=mk(), state=state)
+                res["turns"] += 1
+                step = {"t": t, "options": form, "in": in_v}
+                info = dict(info0, history=hist + [step])
+
+                def bad(sig, what):
+                    res["viol"].append((f"{sig}:v1:state-continued:{form}" + (":after-a-turn-without-input-rails" if after_opt_out else ""), what, info))
+
+                if turn.exc is not None:
+                    bad("generate-raised", f"{turn.exc!r}")
+                    continue
+                calls = [(a["rail"], a["text"]) for a in turn.actions if a.get("rail") in rw.IN_RAILS]
+                res["rail_calls"] += len(calls)
+                res["llm_calls"] += len(turn.llm_calls)
+                if after_opt_out:
+                    res["turns_after_an_opt_out"] += 1
+                if selected:
+                    if calls != [("in1", user_text)]:
+                        bad("input-rail-sequence", f"options form `{form}` selects the input rails; rails invoked {calls}, expected [('in1', {user_text!r})]; reply {turn.text!r}")
+                    elif in_v == "R":
+                        res["rejections"] += 1
+                        if turn.text != "REFUSED-in1":
+                            bad("reply-is-not-the-refusal", f"in1 rejected; reply {turn.text!r}")
+                        if turn.llm_calls:
+                            bad("dialog-or-generation-after-rejection", f"in1 rejected but LLM tasks {[str(c['task']) for c in turn.llm_calls]} ran")
+                elif calls:
+                    bad("unselected-input-rails-ran", f"{calls}")
+                nxt = getattr(turn.reply, "state", None)
+                if nxt is None:
+                    if t < turns:
+                        bad("no-state-returned", f"generate with a state object returned {type(turn.reply).__name__} without a state")
+                    continue
+                expand(nxt, t + 1, hist + [step], not selected)
+
+    expand({}, 1, [], False)
+    seen, uniq = set(), []
+    for v in res["viol"]:
+        if v[0] not in seen:
+            seen.add(v[0])
+            uniq.append(v)
+    res["viol"] = uniq
+    res["sample"] = dict(info0, turns=res["turns"])
+    return res
+
+
 def tasks(tier):
     out = []
     if tier == "quick":
@@ -204,6 +286,8 @@ def tasks(tier):
                 if len(order) == 3 and (tier == "quick" or exc):
                     continue
                 out.append(("1.0", order, dialog, exc, 2, "param"))
+    for dialog in (False, True):
+        out.append(("state-mode", dialog, 2 if tier == "quick" else 3))
     try:
         from vf.props import c01_v2
         out.extend(c01_v2.tasks(tier))
